@@ -539,3 +539,33 @@ def has_sliver(*ps):
             if max(e) > 0 and area2 / max(e) < 1e-3 * max(e):
                 return True
     return False
+
+
+def transformed(p, G=None, s=1.0):
+    """primitive moved by the rigid motion G (4x4) and then scaled about the origin by s"""
+    G = np.eye(4) if G is None else np.asarray(G, float)
+    R = G[:3, :3]; t = G[:3, 3]
+    pt = lambda x: s * (R @ np.asarray(x, float) + t)  # noqa: E731
+    dr = lambda x: R @ np.asarray(x, float)  # noqa: E731
+    k = p.kind; a = p.args
+    if k == "point":
+        return rebuild(k, (pt(a[0]),))
+    if k in ("line", "plane"):
+        return rebuild(k, (pt(a[0]), dr(a[1])))
+    if k == "segment":
+        return rebuild(k, (pt(a[0]), pt(a[1])))
+    if k == "triangle":
+        return rebuild(k, (np.array([pt(v) for v in a[0]]),))
+    if k == "rectangle":
+        return rebuild(k, (pt(a[0]), np.array([dr(a[1][0]), dr(a[1][1])]), np.asarray(a[2], float) * s))
+    if k in ("circle", "disk"):
+        return rebuild(k, (pt(a[0]), float(a[1]) * s, dr(a[2])))
+    T = G @ np.asarray(a[0], float)
+    T[:3, 3] *= s
+    if k == "box":
+        return rebuild(k, (T, np.asarray(a[1], float) * s))
+    if k in ("ellipsoid", "ellipsoid_surface"):
+        return rebuild(k, (T, np.asarray(a[1], float) * s))
+    if k == "cylinder":
+        return rebuild(k, (T, float(a[1]) * s, float(a[2]) * s))
+    raise ValueError(k)
